@@ -400,7 +400,14 @@ def check_stacks(ctx, stacks, origin):
                               f"resolved_solver_command -> {real_s}, spec -> {ssv}, layers {layers}",
                               {"kind": "stack", "layers": layers, "name": "<solver>", "origin": origin})
             elif real_m != sv:
-                raise RuntimeError(f"stale model: solver decision model={sv} real={real_m} layers={layers}")
+                want_warn = 1 if spec["solver"][1] == spec["solver_command"][1] else 0
+                if isinstance(d, tuple) and d[2] != want_warn:
+                    ctx.violation("solver_command_rule:same-precedence-warning",
+                                  f"warning {'raised' if d[2] else 'not raised'} although --solver comes from {spec['solver'][1]} and "
+                                  f"--solver-command from {spec['solver_command'][1]}; layers {layers}",
+                                  {"kind": "stack", "layers": layers, "name": "<solver>", "origin": origin})
+                else:
+                    raise RuntimeError(f"stale model: solver decision model={sv} real={real_m} layers={layers}")
             ctx.case(("stack", shape))
 
 
@@ -657,18 +664,18 @@ FIXED_STRINGS = {
 
 def gen_valid(rng, kind, pool):
     if kind == "csvint":
-        return ",".join(pad(rng, rand_int_literal(rng, pool)) for _ in range(rng.randint(1, 5)))
+        return ",".join(pad(rng, rand_int_literal(rng, pool)) for _ in range(rng.choice([1, 2, 3, 4, 5, 7, 9, 12])))
     if kind == "codes":
         if rng.random() < 0.05:
             return pad(rng, "*")
-        return ",".join(pad(rng, rand_int_literal(rng, pool, base0=True)) for _ in range(rng.randint(1, 5)))
+        return ",".join(pad(rng, rand_int_literal(rng, pool, base0=True)) for _ in range(rng.choice([1, 2, 3, 4, 5, 7, 9, 12])))
     if kind == "events":
-        return ",".join(pad(rng, rng.choice(["LOG", "SSTORE", "SLOAD"])) for _ in range(rng.randint(0, 4)))
+        return ",".join(pad(rng, rng.choice(["LOG", "SSTORE", "SLOAD"])) for _ in range(rng.choice([0, 1, 2, 3, 4, 6, 9])))
     if kind == "lengths":
         items = []
-        for _ in range(rng.randint(1, 4)):
+        for _ in range(rng.choice([1, 1, 2, 3, 4, 6, 8])):
             name = "".join(rng.choice("abxyz_.[]09é") for _ in range(rng.randint(1, 4)))
-            nums = [str(abs(rng.choice(pool))) if rng.random() < 0.5 else str(rng.randrange(0, 2000)) for _ in range(rng.randint(1, 3))]
+            nums = [str(abs(rng.choice(pool))) if rng.random() < 0.5 else str(rng.randrange(0, 2000)) for _ in range(rng.choice([1, 1, 2, 3, 4, 5, 8]))]
             if rng.random() < 0.1:
                 nums[0] = "".join(chr(0x660 + int(c)) for c in nums[0])
             if len(nums) == 1 and rng.random() < 0.5:
@@ -727,6 +734,9 @@ def check_parser_strings(ctx, kind, strings, origin="gen"):
     cls = getattr(hc, PARSERS[kind][0])
     oracle = PARSERS[kind][1]
     strings = [s for s in dict.fromkeys(strings) if not any(0xD800 <= ord(c) <= 0xDFFF for c in s)]
+    if kind == "timeout":
+        # float overflow/underflow is outside the model: keep exponents small
+        strings = [s for s in strings if not re.search(r"[eE][-+_]*[\d_]{3,}", s)]
     replies = ctx.lean("Config").ask([f"parse {kind} {enc_u(s)}" for s in strings])
     unparse_reqs = []
     for s, mrep in zip(strings, replies):
@@ -752,6 +762,8 @@ def check_parser_strings(ctx, kind, strings, origin="gen"):
         v = real[1]
         if kind == "timeout":
             same = time_close(v, orc[1])
+        elif kind == "events":
+            same = isinstance(v, list) and [getattr(x, "value", None) for x in v] == orc[1] and all(isinstance(x, hc.TraceEvent) for x in v)
         else:
             same = values_equal(kind, v, orc[1]) and type(v) is type(orc[1])
         if not same:
@@ -780,8 +792,8 @@ def check_parser_strings(ctx, kind, strings, origin="gen"):
             ctx.count(f"roundtrip.{kind}.fails")
         else:
             ctx.count(f"roundtrip.{kind}.ok")
-        if u[0] == "ok":
-            unparse_reqs.append((kind, v, u[1]))
+            if u[0] == "ok":
+                unparse_reqs.append((kind, v, u[1]))
     # model unparse = real unparse (same rendering)
     if unparse_reqs:
         reps = ctx.lean("Config").ask([model_unparse_req(k, v) for k, v, _ in unparse_reqs])
@@ -791,7 +803,7 @@ def check_parser_strings(ctx, kind, strings, origin="gen"):
 
 
 def check_parsers(ctx, pool):
-    n = ctx.scale(700, 15000)
+    n = ctx.scale(700, 6000)
     for kind in PARSERS:
         strings = list(FIXED_STRINGS[kind])
         for _ in range(n):
@@ -802,3 +814,839 @@ def check_parsers(ctx, pool):
         for s in list(FIXED_STRINGS[kind]):
             strings.append(mutate(ctx.rng, s))
         check_parser_strings(ctx, kind, strings)
+
+
+# ------------------------------------------------------------------------------------------------ timeouts: grid
+
+
+def timeout_mode():
+    """which ParseTimeout.unparse is live: 'truncating' (pinned source), 'roundtrips' (repaired) or 'other'"""
+    PT = H()["hc"].ParseTimeout
+    res = []
+    for v in (1.5, 0.0005):
+        r = real_call(lambda v=v: PT.parse(PT.unparse(v)))
+        res.append(r == ("ok", v))
+    trunc = real_call(PT.unparse, 1.5) == ("ok", "1s") and real_call(PT.unparse, 0.0005) == ("ok", "0ms")
+    if all(res):
+        return "roundtrips"
+    if trunc:
+        return "truncating"
+    return "other"
+
+
+def dec_of_fraction(fr: Fraction):
+    """(mant, scale) normal form of a decimal rational, None if not decimal"""
+    num, den = fr.numerator, fr.denominator
+    scale = 0
+    d = den
+    while d % 10 == 0:
+        d //= 10
+        scale += 1
+    twos = fives = 0
+    while d % 2 == 0:
+        d //= 2
+        twos += 1
+    while d % 5 == 0:
+        d //= 5
+        fives += 1
+    if d != 1:
+        return None
+    k = max(twos, fives)
+    mant = num * (5 ** (k - fives)) * (2 ** (k - twos))
+    scale += k
+    while scale > 0 and mant % 10 == 0:
+        mant //= 10
+        scale -= 1
+    return mant, scale
+
+
+def truncating_expected(exact: Fraction) -> str:
+    """the pinned unparse on an exact value (Python mirror of Model.unparseTimeoutCurrent, cross-checked against it)"""
+    def trunc(fr):
+        return int(fr)  # Fraction -> int truncates toward zero
+    if exact < 1:
+        return f"{trunc(exact * 1000)}ms"
+    return f"{trunc(exact)}s"
+
+
+def check_timeout_grid(ctx, pool):
+    PT = H()["hc"].ParseTimeout
+    mode = timeout_mode()
+    ctx.note(f"ParseTimeout.unparse behaviour detected at run time: {mode}")
+    ctx.count(f"timeout.mode.{mode}")
+    ctx.extra["timeout_unparse_mode"] = mode
+    # replay of the proved counterexamples (Props.C18.timeout_roundtrip_current_cex): 1.5 s and 0.5 ms
+    for lit, v in (("1.5s", 1.5), ("0.5ms", 0.0005)):
+        pv = PT.parse(lit)
+        assert pv == v, (lit, pv)
+        u = PT.unparse(pv)
+        if PT.parse(u) != pv:
+            ctx.violation("ParseTimeout.unparse:truncates",
+                          f"ParseTimeout.parse(ParseTimeout.unparse({pv!r})) = {PT.parse(u)!r} (unparse gave {u!r}); "
+                          "0.5 ms even becomes '0ms' = no timeout",
+                          {"kind": "timeout-roundtrip", "string": lit})
+    # ---- the grid: every k ms, and decimal strings with units
+    step = 1
+    grid = [(f"{k}ms", Fraction(k, 1000)) for k in range(0, 100001, step)]
+    extra = []
+    for unit, mult in (("s", Fraction(1)), ("ms", Fraction(1, 1000)), ("m", Fraction(60)), ("h", Fraction(3600)), ("", Fraction(1, 1000))):
+        for ip in sorted({0, 1, 2, 5, 9, 10, 59, 60, 61, 99, 100, 999, 1000, 1001, 3599, 3600, 3601, 86400} | {abs(p) for p in pool}):
+            for fp in ("", ".0", ".5", ".25", ".001", ".0005", ".999", ".1", ".3", ".7", ".05", ".125", ".0001", ".123456"):
+                extra.append((f"{ip}{fp}{unit}", Fraction(f"{ip}{fp}") * mult))
+    n_rand = ctx.scale(3000, 60000)
+    for _ in range(n_rand):
+        ip = ctx.rng.randrange(0, 10 ** ctx.rng.randint(1, 6))
+        fp = "".join(ctx.rng.choice("0123456789") for _ in range(ctx.rng.randint(0, 7)))
+        unit, mult = ctx.rng.choice([("s", Fraction(1)), ("ms", Fraction(1, 1000)), ("m", Fraction(60)), ("h", Fraction(3600)), ("", Fraction(1, 1000))])
+        lit = f"{ip}.{fp}" if fp or ctx.rng.random() < 0.3 else f"{ip}"
+        extra.append((lit + unit, Fraction(lit if not lit.endswith(".") else lit[:-1]) * mult))
+    cases = grid + extra
+    fails = {"lt1s": 0, "ge1s": 0}
+    model_sample = []
+    for idx, (lit, exact) in enumerate(cases):
+        r = real_call(PT.parse, lit)
+        if r[0] != "ok" or not time_close(r[1], exact):
+            ctx.violation("ParseTimeout.parse:wrong-value", f"ParseTimeout.parse({lit!r}) -> {r}, expected {float(exact)!r}",
+                          {"kind": "parse", "parser": "timeout", "string": lit})
+            continue
+        v = r[1]
+        u = real_call(PT.unparse, v)
+        back = real_call(PT.parse, u[1]) if u[0] == "ok" else u
+        ok = back == ("ok", v)
+        branch = "lt1s" if exact < 1 else "ge1s"
+        ctx.count(f"timeout.grid.{branch}.{'ok' if ok else 'fails'}")
+        ctx.case(("tgrid", lit), nontrivial=idx < len(grid) or idx % 7 == 0)
+        if not ok:
+            fails[branch] += 1
+            want = truncating_expected(exact)
+            explained = False
+            if mode == "truncating" and u[0] == "ok":
+                m1 = re.fullmatch(r"(-?\d+)(ms|s)", u[1])
+                m2 = re.fullmatch(r"(-?\d+)(ms|s)", want)
+                # binary rounding of value*1000 may move the truncated integer by one
+                explained = bool(m1 and m2 and m1.group(2) == m2.group(2) and abs(int(m1.group(1)) - int(m2.group(1))) <= 1)
+                if explained and m1.group(1) != m2.group(1):
+                    ctx.count("timeout.grid.float-off-by-one")
+            if explained:
+                ctx.violation("ParseTimeout.unparse:truncates",
+                              f"parse(unparse(parse({lit!r}))) = {back}, unparse gave {u[1]!r}", {"kind": "timeout-roundtrip", "string": lit})
+            else:
+                ctx.violation(f"ParseTimeout.roundtrip:{branch}:{'raises' if u[0] != 'ok' or back[0] != 'ok' else 'wrong-value'}",
+                              f"parse(unparse(parse({lit!r}) = {v!r})) = {back}, unparse gave {u[1]!r}" +
+                              (f" (the truncating definition would give {want!r})" if mode == "truncating" else ""),
+                              {"kind": "timeout-roundtrip", "string": lit})
+        elif mode == "truncating" and u[1] != truncating_expected(exact):
+            # round trip holds but the rendering is not the pinned one: also compare (off-by-one from rounding cannot round-trip)
+            ctx.count("timeout.grid.rendering-differs")
+        if idx % 37 == 0 or idx < 1200 or 990 <= idx % 1000 or idx >= len(grid):
+            model_sample.append((lit, exact, v, u[1] if u[0] == "ok" else None))
+    ctx.extra["timeout_grid_points"] = len(grid)
+    ctx.extra["timeout_grid_exhaustive_k_ms"] = [0, 100000, step]
+    # ---- model on a sample: parse value, both unparse definitions, model round trip of the repaired one
+    if len(model_sample) > ctx.scale(9000, 80000):
+        keep = model_sample[:1200] + ctx.rng.sample(model_sample[1200:], ctx.scale(9000, 80000) - 1200)
+        model_sample = keep
+    reqs = []
+    for lit, exact, v, u in model_sample:
+        m, s = dec_of_fraction(exact)
+        reqs += [f"parse timeout {enc_u(lit)}", f"unparse timeout-current {m} {s}", f"unparse timeout-fixed {m} {s}"]
+    reps = ctx.lean("Config").ask(reqs)
+    back_reqs = []
+    for i, (lit, exact, v, u) in enumerate(model_sample):
+        p, uc, uf = reps[3 * i:3 * i + 3]
+        if not p.startswith("ok T:") or model_time(p[3:]) != exact:
+            raise RuntimeError(f"stale model: timeout parse({lit!r}) model {p}, exact {exact}")
+        if dec_u(uc[3:]) != truncating_expected(exact):
+            raise RuntimeError(f"harness mirror of the truncating unparse disagrees with the model on {lit}: {dec_u(uc[3:])} vs {truncating_expected(exact)}")
+        back_reqs.append(f"parse timeout {uf[3:]}")
+        if u is not None and mode != "truncating":
+            back_reqs.append(f"parse timeout {enc_u(u)}")
+            ctx.count("timeout.rendering." + ("same-as-model" if dec_u(uf[3:]) == u else "differs-from-model"))
+    breps = ctx.lean("Config").ask(back_reqs)
+    j = 0
+    for lit, exact, v, u in model_sample:
+        r = breps[j]
+        j += 1
+        if not r.startswith("ok T:") or model_time(r[3:]) != exact:
+            raise RuntimeError(f"model: repaired unparse does not round-trip on {lit}: {r}")
+        if u is not None and mode != "truncating":
+            r2 = breps[j]
+            j += 1
+            # the string the real (repaired) unparse produced denotes the same time in the model
+            if not r2.startswith("ok T:") or not time_close(v, model_time(r2[3:])):
+                ctx.violation("ParseTimeout.unparse:denotes-other-value", f"unparse({v!r}) = {u!r} which denotes {r2}",
+                              {"kind": "timeout-roundtrip", "string": lit})
+    ctx.count("timeout.model-sample", len(model_sample))
+
+
+# ------------------------------------------------------------------------------------------------ TOML dicts
+
+
+def vtok(v) -> str:
+    if isinstance(v, bool):
+        return "B:1" if v else "B:0"
+    if isinstance(v, int):
+        return f"I:{v}"
+    if isinstance(v, str):
+        return "S:" + enc_u(v)[2:]
+    if isinstance(v, float):
+        return "F:" + enc_u(str(v))[2:]
+    return "O"
+
+
+def val_matches(real, token) -> bool:
+    if token.startswith("T:"):
+        return isinstance(real, float) and time_close(real, model_time(token))
+    if token.startswith("F:"):
+        return isinstance(real, float) and token == "F:" + enc_u(str(real))[2:]
+    if token == "O":
+        return not isinstance(real, (str, int, float, bool))
+    if token.startswith("D:") and isinstance(real, dict):
+        return canon_val(real) == token
+    if token.startswith("E:") and isinstance(real, list):
+        return "E:[" + ",".join(getattr(x, "value", "?") for x in real) + "]" == token
+    if token.startswith("L:") and isinstance(real, list):
+        return "L:" + show_ints(real) == token
+    return canon_val(real) == canon_model_val(token)
+
+
+TOML_ACTIONS = {"panic_error_codes": "codes", "array_lengths": "lengths", "default_array_lengths": "csvint", "default_bytes_lengths": "csvint",
+                "trace_events": "events", "solver_timeout_branching": "timeout", "solver_timeout_assertion": "timeout"}
+
+
+def toml_req(doc: dict) -> str:
+    parts = ["toml"]
+    for sec, data in doc.items():
+        parts += ["sec", enc_u(sec)]
+        if isinstance(data, dict):
+            parts.append("table")
+            parts += [f"{enc_u(k)}={vtok(v)}" for k, v in data.items()]
+        else:
+            parts.append("value")
+    return " ".join(parts)
+
+
+def gen_toml(rng, pool):
+    names = field_names()
+    action_fields = {"panic_error_codes": "codes", "array_lengths": "lengths", "default_array_lengths": "csvint",
+                     "default_bytes_lengths": "csvint", "trace_events": "events", "solver_timeout_branching": "timeout",
+                     "solver_timeout_assertion": "timeout"}
+    def table():
+        d = {}
+        for _ in range(rng.randint(0, 6)):
+            r = rng.random()
+            if r < 0.45:
+                k = rng.choice(list(action_fields))
+                kind = action_fields[k]
+                rr = rng.random()
+                if rr < 0.6:
+                    v = gen_valid(rng, kind, pool)
+                elif rr < 0.8:
+                    v = rng.choice(FIXED_STRINGS[kind])
+                elif rr < 0.9:
+                    v = rng.choice([0, 1, 5, True, False, 1.5, 0.25, [1, 2], 100])
+                else:
+                    v = mutate(rng, gen_valid(rng, kind, pool))
+                if kind == "timeout" and isinstance(v, str) and re.search(r"[eE][-+_]*[\d_]{3,}", v):
+                    v = "1s"
+            elif r < 0.85:
+                k = rng.choice(names)
+                v = rng.choice([rng.choice(pool), "x", True, 1.5, "", [1], False])
+            else:
+                k = rng.choice(["unknown", "loops", "solver-timeout", "global", "x-y-z"])
+                v = rng.choice([1, "a"])
+            if rng.random() < 0.6:
+                k = k.replace("_", "-") if rng.random() < 0.8 else k.replace("_", "-", 1)
+            d[k] = v
+        return d
+    r = rng.random()
+    if r < 0.72:
+        return {"global": table()}
+    if r < 0.78:
+        return {}
+    if r < 0.86:
+        return {rng.choice(["Global", "globals", "profile", "global ", ""]): table()}
+    if r < 0.93:
+        return {"global": table(), rng.choice(["extra", "profile"]): table()}
+    if r < 0.97:
+        return {"global": rng.choice([5, "x", True, [1]])}
+    return {"a": 1, "b": 2}
+
+
+def check_toml(ctx, pool):
+    hc = H()["hc"]
+    docs = [
+        {"global": {}}, {}, {"global": {"loop": 3}}, {"weird": {"a": 1}}, {"global": {"a": 1}, "extra": {"b": 2}}, {"a": 1, "b": 2},
+        {"global": {"solver-timeout-assertion": "1.5s", "panic-error-codes": "*", "array-lengths": "x={1,2}"}},
+        {"global": {"solver-timeout-assertion": 1500}}, {"global": {"solver-timeout-assertion": 1.5}}, {"global": {"solver-timeout-assertion": True}},
+        {"global": {"panic-error-codes": 1}}, {"global": {"array-lengths": 0}}, {"global": {"array-lengths": 5}}, {"global": {"array-lengths": ""}},
+        {"global": {"default-array-lengths": ""}}, {"global": {"trace-events": "log"}}, {"global": {"unknown-key": 1}},
+        {"global": {"solver-threads": 1, "solver_threads": 2}}, {"global": 5}, {"global": {"loop": "abc"}},
+    ]
+    for _ in range(ctx.scale(600, 12000)):
+        docs.append(gen_toml(ctx.rng, pool))
+    reps = ctx.lean("Config").ask([toml_req(d) for d in docs])
+    follow = []
+    for doc, mrep in zip(docs, reps):
+        real = real_call(hc.toml_parser().parse_dict, dict(doc))
+        ctx.count("toml." + (real[0] if real[0] == "ok" else real[1]))
+        replay = {"kind": "toml", "doc": doc}
+        # spec-level expectations: exactly one section called `global`
+        well_sectioned = list(doc.keys()) == ["global"]
+        if not well_sectioned and real != ("err", "exit2"):
+            ctx.violation("TomlParser.parse_dict:accepts-non-global", f"parse_dict({doc}) -> {real}", replay)
+            continue
+        if real[0] == "err":
+            if mrep != "err " + real[1]:
+                if well_sectioned and real[1] == "exit2":
+                    ctx.violation("TomlParser.parse_dict:rejects-global", f"parse_dict({doc}) -> {real}", replay)
+                    continue
+                raise RuntimeError(f"stale model: toml {doc} real {real} model {mrep}")
+            ctx.case(("toml", json.dumps(doc, default=str)))
+            continue
+        if not mrep.startswith("ok"):
+            # a malformed structured value was accepted (model rejects) or the model is stale: ask the oracles
+            bad = None
+            for k, v in doc["global"].items():
+                kk = k.replace("-", "_")
+                kind = {"panic_error_codes": "codes", "array_lengths": "lengths", "default_array_lengths": "csvint", "default_bytes_lengths": "csvint",
+                        "trace_events": "events", "solver_timeout_branching": "timeout", "solver_timeout_assertion": "timeout"}.get(kk)
+                if kind and isinstance(v, str) and PARSERS[kind][1](v)[0] == "err":
+                    bad = (k, v)
+            if bad:
+                ctx.violation("TomlParser.parse_dict:malformed-value-accepted", f"parse_dict accepted {bad} -> {real[1]}", replay)
+                continue
+            raise RuntimeError(f"stale model: toml {doc} real {real} model {mrep}")
+        items = [it for it in mrep[3:].split(" ") if it]
+        mk = [it.split("=", 1) for it in items]
+        rk = list(real[1].items())
+        wrong = None
+        for k, v in doc["global"].items():
+            kind = TOML_ACTIONS.get(k.replace("-", "_"))
+            if kind and isinstance(v, str):
+                o = PARSERS[kind][1](v)
+                rv = real[1].get(k.replace("-", "_"))
+                good = o[0] == "ok" and (time_close(rv, o[1]) if kind == "timeout" else
+                                         ([getattr(x, "value", None) for x in rv] == o[1] if kind == "events" else rv == o[1]))
+                if not good and list(doc["global"]).count(k) == 1 and sum(1 for kk in doc["global"] if kk.replace("-", "_") == k.replace("-", "_")) == 1:
+                    wrong = (k, v, rv, o)
+        if wrong:
+            ctx.violation("TomlParser.parse_dict:wrong-or-malformed-value", f"parse_dict gave {wrong[2]!r} for {wrong[0]} = {wrong[1]!r}; documented grammar: {wrong[3]}", replay)
+            continue
+        if [k for k, _ in mk] != [k for k, _ in rk] or not all(val_matches(rv, mt) for (_, rv), (_, mt) in zip(rk, mk)):
+            raise RuntimeError(f"stale model: toml {doc} real {rk} model {mk}")
+        ctx.case(("toml", json.dumps(doc, default=str)))
+        follow.append((doc, real[1]))
+    # unknown keys are rejected when the file layer is applied (with_overrides), never silently dropped
+    names = set(field_names())
+    for doc, res in follow:
+        r = real_call(hc.default_config().with_overrides, hc.ConfigSource.config_file, **res)
+        unknown = [k for k in res if k not in names]
+        if unknown and r != ("err", "exit2"):
+            ctx.violation("load_config:unknown-key-accepted", f"config file keys {unknown} accepted", {"kind": "toml", "doc": doc})
+        elif not unknown:
+            if r[0] != "ok":
+                ctx.violation("load_config:known-key-rejected", f"config file {doc} rejected: {r}", {"kind": "toml", "doc": doc})
+            else:
+                cfg = r[1]
+                for k, v in res.items():
+                    got = cfg.value_with_source(k)
+                    if got[1].name != "config_file" or not values_equal("x", got[0], v) and not (isinstance(v, float) and math.isnan(v)):
+                        ctx.violation("load_config:file-value-not-effective", f"{k}: {got} after applying file layer {res}", {"kind": "toml", "doc": doc})
+        ctx.count("toml.follow." + ("unknown-key" if unknown else "applied"))
+
+
+# ------------------------------------------------------------------------------------------------ natspec / devdoc annotations
+
+
+def oracle_natspec(text: str) -> str:
+    """the options that follow `@custom:halmos` tags, up to the next tag (documented in build.py's comment); index scanning"""
+    out, i, n, on = [], 0, len(text), False
+    while i < n:
+        if text[i] == "@" and i + 1 < n and not text[i + 1].isspace():
+            j = i + 1
+            while j < n and not text[j].isspace():
+                j += 1
+            on = text[i:j] == "@custom:halmos"
+            i = j
+            continue
+        if on:
+            out.append(text[i])
+        i += 1
+    return "".join(out).strip()
+
+
+NAT_PIECES = ["@custom:halmos", "@custom:halmos", "@custom:halmos,", "@custom:halmosX", "@notice", "@dev", "@", "@@custom:halmos", "x@custom:halmos",
+              "--loop 3", "--width 5", "--ffi", "blah", " ", " ", "\n", "\t", "　", "///", "a@b", "@ x", "--depth", "7", "@param x", "@custom:halmos\n",
+              "\x1c", "@\n", "@custom:halmos@dev"]
+
+
+def check_natspec(ctx):
+    hb = H()["hb"]
+    texts = ["", "@custom:halmos --x", "@custom:halmos --x\n   --y", "@custom:halmos --x\n@custom:halmos --y", "blah blah @custom:halmos --x\n --y",
+             "@custom:halmos --x @dev no --y", "@dev a @custom:halmos --x", "@custom:halmos", "@custom:halmos ", " @custom:halmos --x @", "@ custom:halmos --x",
+             "@custom:halmos --a @ --b", "@custom:halmos --a @@ --b", "@custom:halmos\t--loop\t3"]
+    for _ in range(ctx.scale(800, 15000)):
+        k = ctx.rng.randint(0, 8)
+        sep = ctx.rng.choice(["", " ", " ", "\n"])
+        texts.append(sep.join(ctx.rng.choice(NAT_PIECES) for _ in range(k)))
+    texts = list(dict.fromkeys(texts))
+    reps = ctx.lean("Config").ask([f"parse natspec {enc_u(t)}" for t in texts])
+    for t, mr in zip(texts, reps):
+        real = real_call(hb.parse_natspec, {"text": t})
+        want = oracle_natspec(t)
+        ctx.count("natspec." + ("empty" if not want else "options"))
+        if real != ("ok", want):
+            ctx.violation("parse_natspec:" + ("drops-options" if real[0] == "ok" and len(real[1]) < len(want) else "wrong-text"),
+                          f"parse_natspec({t!r}) -> {real}, documented: {want!r}", {"kind": "natspec", "text": t})
+        elif dec_u(mr[3:]) != want:
+            raise RuntimeError(f"stale model: parse_natspec({t!r}) = {want!r}, model {dec_u(mr[3:])!r}")
+        ctx.case(("natspec", t))
+    r = real_call(hb.parse_natspec, {})
+    if r != ("ok", ""):
+        ctx.violation("parse_natspec:no-text", f"parse_natspec({{}}) -> {r}", {"kind": "natspec", "text": None})
+
+
+ANN_OK = ["--loop 3", "--loop=4", "--width 5", "--depth 6", "--solver z3", "--solver-command mysolver", "--ffi", "--early-exit", "--verbose", "--verbose --verbose",
+          "--solver-timeout-assertion 10s", "--solver-timeout-assertion=1500", "--solver-timeout-branching 0", "--array-lengths x={1,2}", "--array-lengths=x=3,y={4}",
+          "--default-array-lengths 1,2", "--panic-error-codes 0x11,0x12", "--panic-error-codes *", "--trace-events LOG,SLOAD", "--storage-layout generic",
+          "--invariant-depth 3", "--loop 1 --loop 9", "--smt-exp-by-const 7", "--solver-max-memory 64", "--cache-solver", "--loop -1", "--function test_",
+          "--match-contract Foo", "--dump-smt-directory /tmp/x", "--loop 0x1"[:-4] + " 12"]
+ANN_BAD = ["--loop x", "--no-such 1", "--loop", "--storage-layout foo", "--panic-error-codes zz", "extra", "--loop 3 extra", "--ffi=1", "--default-array-lengths ,",
+           "--array-lengths x=", "--trace-events NOPE", "--solver-timeout-assertion abc", "--loop 1.5", "--loop --width 3", "--verbose=2"]
+
+
+def layer_chain(cfg, stop=None):
+    """[(source name, {field: value} non-None)] newest first, down to (excluding) `stop`"""
+    out = []
+    names = field_names()
+    cur = cfg
+    while cur is not None and cur is not stop:
+        vals = {}
+        for n in names:
+            v = object.__getattribute__(cur, n)
+            if v is not None:
+                vals[n] = v
+        out.append((object.__getattribute__(cur, "_source").name, vals))
+        cur = object.__getattribute__(cur, "_parent")
+    return out
+
+
+def root_of(cfg):
+    while object.__getattribute__(cfg, "_parent") is not None:
+        cfg = object.__getattribute__(cfg, "_parent")
+    return cfg
+
+
+def parse_model_config(s):
+    """'src[label]{k=v&k=v}|…' -> [(src, label, [(k, tok)])]"""
+    out = []
+    for part in s.split("|"):
+        m = re.fullmatch(r"([a-z_]+)\[(.*?)\]\{(.*)\}", part)
+        assert m, part
+        kvs = [tuple(kv.split("=", 1)) for kv in m.group(3).split("&") if kv]
+        out.append((m.group(1), m.group(2), kvs))
+    return out
+
+
+def chain_matches(real_chain, model_layers):
+    if len(real_chain) != len(model_layers):
+        return False
+    for (rs, rv), (ms, _, mkv) in zip(real_chain, model_layers):
+        if rs != ms or sorted(rv.keys()) != sorted(k for k, _ in mkv):
+            return False
+        if not all(val_matches(rv[k], t) for k, t in mkv):
+            return False
+    return True
+
+
+def gen_annotation(rng, allow_bad=True):
+    r = rng.random()
+    if r < 0.25:
+        return None
+    if r < 0.32:
+        return ""
+    k = rng.randint(1, 3)
+    parts = [rng.choice(ANN_OK) for _ in range(k)]
+    if allow_bad and rng.random() < 0.15:
+        parts.insert(rng.randrange(0, len(parts) + 1), rng.choice(ANN_BAD))
+    return rng.choice([" ", "  ", "\n", "\t"]).join(parts)
+
+
+def mk_contract_json(name, funs):
+    methods = {}
+    for sig, dd in funs:
+        if dd is not None:
+            methods[sig] = {"custom:halmos": dd}
+        elif hash(sig) % 3 == 0:
+            methods[sig] = {"details": "no halmos tag"}
+    return {
+        "abi": [], "methodIdentifiers": {sig: format(i + 1, "08x") for i, (sig, _) in enumerate(funs)},
+        "bytecode": {"object": "0x00", "linkReferences": {}}, "deployedBytecode": {"object": "0x00"},
+        "ast": {"absolutePath": f"test/{name}.sol", "nodes": []},
+        "metadata": {"output": {"devdoc": {"methods": methods}}} if (methods or hash(name) % 2) else {"output": {}},
+    }
+
+
+def check_annotations(ctx, pool):
+    n_art = ctx.scale(150, 2500)
+    arts = []
+    for art_i in range(n_art):
+        rng = ctx.rng
+        allow_bad = art_i % 3 == 0
+        # base config: default root + maybe file + command line
+        base_layers = [("default", {"loop": 2, "width": 0, "depth": 0, "solver": "yices", "solver_command": "", "ffi": False})]
+        if rng.random() < 0.6:
+            base_layers.append(("config_file", {"loop": rng.choice(pool), "depth": 11}))
+        base_layers.append(("command_line", {k: v for k, v in (("loop", rng.choice([None, 77])), ("width", rng.choice([None, 5])), ("verbose", None))}))
+        contracts = []
+        for ki in range(rng.randint(1, 3)):
+            name = f"K{ki}"
+            ann = gen_annotation(rng, allow_bad)
+            natspec_text = None
+            natspec = None
+            r = rng.random()
+            if ann is not None:
+                natspec_text = rng.choice(["", "some contract\n", "@notice x\n"]) + "@custom:halmos " + ann + rng.choice(["", "\n@dev trailing", " "])
+                if r < 0.1:
+                    natspec_text = "@dev only " + ann       # no halmos tag: must not apply
+                natspec = {"text": natspec_text}
+            elif r < 0.3:
+                natspec = {}
+            elif r < 0.5:
+                natspec, natspec_text = {"text": "@notice nothing here"}, "@notice nothing here"
+            funs = [(f"check_f{fi}(uint256)", gen_annotation(rng, allow_bad)) for fi in range(rng.randint(1, 4))]
+            contracts.append((name, natspec, natspec_text, funs))
+        arts.append((base_layers, contracts))
+    check_artifacts(ctx, arts)
+
+
+def check_artifacts(ctx, arts):
+    hc, hm = H()["hc"], HM()
+    from halmos.solve import ContractContext
+
+    lines, where = [], []
+    for base_layers, contracts in arts:
+        req = ["derive"]
+        for name, natspec, text, funs in contracts:
+            req += ["K", enc_u(name), "N" if not natspec else enc_u(natspec.get("text", ""))]
+            for sig, dd in funs:
+                req += ["F", enc_u(sig), "N" if dd is None else enc_u(dd)]
+        lines += stack_lines(base_layers) + [" ".join(req)]
+        where.append(len(lines) - 1)
+    all_reps = ctx.lean("Config").ask(lines)
+    for (base_layers, contracts), at in zip(arts, where):
+        # the real root is default_config() itself (FunctionContext needs real defaults); the root layer is not compared
+        base = hc.default_config()
+        for s_, kw_ in base_layers[1:]:
+            base = base.with_overrides(src_obj(s_), **kw_)
+        model = {}
+        for item in all_reps[at][3:].split(" "):
+            key, cfgs = item.split("=", 1)
+            k, f = key.split("/")
+            model[(dec_u(k), dec_u(f))] = cfgs
+        base_chain = layer_chain(base)
+        # ---- real: direct calls (path A), then the real run_tests loop (path B) when nothing can exit
+        observed = {}
+        all_clean = True
+        for name, natspec, text, funs in contracts:
+            cj = mk_contract_json(name, funs)
+            ca = real_call(hm.with_natspec, base, name, natspec)
+            for sig, dd in funs:
+                if ca[0] == "err":
+                    observed[(name, sig)] = ca
+                    all_clean = False
+                    continue
+                fa = real_call(hm.with_devdoc, ca[1], sig, cj)
+                observed[(name, sig)] = fa if fa[0] == "err" else ("ok", fa[1], ca[1])
+                all_clean &= fa[0] == "ok"
+            if ca[0] == "ok" and all(observed[(name, s)][0] == "ok" for s, _ in funs):
+                # path B: the loop of run_tests with run_test replaced by a recorder
+                seen = []
+                saved = hm.run_test
+                hm.run_test = lambda fctx: (seen.append((fctx.info.sig, fctx.args)), hm.TestResult(fctx.info.sig, 0))[1]
+                try:
+                    cctx = ContractContext(args=ca[1], name=name, funsigs=[s for s, _ in funs], creation_hexcode="", deployed_hexcode="", abi={},
+                                           method_identifiers=cj["methodIdentifiers"], contract_json=cj, libs={}, build_out_map={})
+                    with quiet():
+                        hm.run_tests(cctx, None, [s for s, _ in funs])
+                finally:
+                    hm.run_test = saved
+                ctx.count("annotations.run_tests-loop")
+                if [s for s, _ in seen] != [s for s, _ in funs]:
+                    ctx.violation("annotation_scope:run_tests-skips-function", f"run_tests ran {[s for s, _ in seen]} of {[s for s, _ in funs]}", {"kind": "annot", "contracts": contracts, "base": base_layers})
+                for sig, cfg in seen:
+                    observed[(name, sig)] = ("ok", cfg, ca[1])
+        # ---- compare
+        for name, natspec, text, funs in contracts:
+            for sig, dd in funs:
+                obs = observed[(name, sig)]
+                m = model[(name, sig)]
+                replay = {"kind": "annot", "contracts": contracts, "base": base_layers, "at": [name, sig]}
+                nat_opts = oracle_natspec(text) if text else ""
+                exp_sources = (["function_annotation"] if dd else []) + (["contract_annotation"] if nat_opts else []) + [s for s, _ in reversed(base_layers)]
+                if obs[0] == "err":
+                    ctx.count("annotations.rejected." + obs[1])
+                    if m != "err:" + obs[1]:
+                        clean = not any(b in (dd or "") or b in (text or "") for b in ANN_BAD)
+                        if clean:
+                            ctx.violation("annotation:valid-options-rejected", f"{name}.{sig}: {obs} for natspec {text!r} devdoc {dd!r}", replay)
+                        else:
+                            raise RuntimeError(f"stale model: annotations {name}.{sig}: real {obs}, model {m}; natspec {text!r} devdoc {dd!r}")
+                    ctx.case(("annot-err", text, dd))
+                    continue
+                chain = layer_chain(obs[1])
+                got_sources = [s for s, _ in chain]
+                # spec: own function annotation, own contract annotation, base — nothing else, in this order
+                if got_sources != exp_sources or chain[len(chain) - len(base_chain):] != base_chain or root_of(obs[1]) is not hc.default_config():
+                    ctx.violation("annotation_scope:wrong-layers", f"{name}.{sig}: layers {got_sources}, expected {exp_sources}; natspec {text!r} devdoc {dd!r}", replay)
+                    continue
+                if m.startswith("err:"):
+                    bad = any(b in (dd or "") or b in (text or "") for b in ANN_BAD)
+                    if bad:
+                        ctx.violation("annotation:malformed-options-accepted", f"{name}.{sig}: accepted natspec {text!r} devdoc {dd!r}", replay)
+                        continue
+                    raise RuntimeError(f"stale model: annotations {name}.{sig}: real ok {chain[:2]}, model {m}")
+                ml = parse_model_config(m)
+                labels = [lab for _, lab, _ in ml if lab]
+                exp_labels = ([f"function:{name}.{sig}"] if dd else []) + ([f"contract:{name}"] if nat_opts else [])
+                if labels != exp_labels:
+                    raise RuntimeError(f"model scoping labels {labels} != {exp_labels}")
+                if not chain_matches(chain[:-1], ml[:-1]):
+                    # is the real one wrong w.r.t. the documented meaning? values of own annotations must be effective
+                    raise RuntimeError(f"stale model: annotations {name}.{sig}: real {chain[:2]}, model {ml[:2]}")
+                # effective value check against other functions' annotations: `--loop` of g must not leak into f
+                ctx.count("annotations.ok." + "+".join(s[:3] for s in got_sources[:len(got_sources) - len(base_layers)]) or "annotations.ok.none")
+                ctx.case(("annot", text, dd, tuple(s for s, _ in base_layers)))
+
+
+# ------------------------------------------------------------------------------------------------ load_config and the loop of _main
+
+
+def toml_text(d: dict) -> str:
+    def tv(v):
+        if isinstance(v, bool):
+            return "true" if v else "false"
+        if isinstance(v, (int, float)):
+            return str(v)
+        return json.dumps(v)
+    return "[global]\n" + "".join(f"{k} = {tv(v)}\n" for k, v in d.items())
+
+
+CLI_OK = ["--loop 3", "--width 4", "--solver z3", "--solver-command cmdline-solver", "--solver-timeout-assertion 2s", "--ffi", "--depth=8", "--panic-error-codes 0x21",
+          "--default-bytes-lengths 1,2", "--no-status", "--verbose"]
+FILE_OK = [("loop", 5), ("depth", 6), ("solver", "cvc5"), ("solver-command", "file-solver"), ("solver-timeout-assertion", "3m"), ("array-lengths", "x={1,2}"),
+           ("trace-events", "LOG"), ("early-exit", True), ("solver_timeout_branching", 7), ("panic-error-codes", "*")]
+
+
+def check_load_config(ctx):
+    hc, hm = H()["hc"], HM()
+    cases = []
+    for _ in range(ctx.scale(40, 600)):
+        rng = ctx.rng
+        file = dict(rng.sample(FILE_OK, rng.randint(0, 4))) if rng.random() < 0.75 else None
+        cli = rng.sample(CLI_OK, rng.randint(0, 4))
+        cases.append((file, cli))
+    with tempfile.TemporaryDirectory(prefix="c18cfg") as tmp:
+        reqs = []
+        for file, cli in cases:
+            reqs.append(toml_req({"global": file}) if file is not None else "reset")
+            reqs.append("parse args " + enc_u(" ".join(["--root", tmp] + cli)))
+        reps = ctx.lean("Config").ask(reqs)
+        for i, (file, cli) in enumerate(cases):
+            tp = Path(tmp) / "halmos.toml"
+            if file is not None:
+                tp.write_text(toml_text(file))
+            elif tp.exists():
+                tp.unlink()
+            r = real_call(hm.load_config, ["--root", tmp] + shlex.split(" ".join(cli)))
+            replay = {"kind": "load_config", "file": file, "cli": cli}
+            if r[0] != "ok":
+                ctx.violation("load_config:rejects-valid", f"load_config(file={file}, cli={cli}) -> {r}", replay)
+                continue
+            chain = layer_chain(r[1])
+            exp = ["command_line"] + (["config_file"] if file is not None else []) + ["default"]
+            if [s for s, _ in chain] != exp or root_of(r[1]) is not hc.default_config():
+                ctx.violation("load_config:wrong-layers", f"layers {[s for s, _ in chain]} expected {exp} (file={file}, cli={cli})", replay)
+                continue
+            mfile, mcli = reps[2 * i], reps[2 * i + 1]
+            mcli_kv = [tuple(kv.split("=", 1)) for kv in mcli[3:].split("&") if kv]
+            if not chain_matches([chain[0]], [("command_line", "", mcli_kv)]):
+                raise RuntimeError(f"stale model: CLI layer {chain[0]} vs {mcli_kv}")
+            if file is not None:
+                mf_kv = [tuple(it.split("=", 1)) for it in mfile[3:].split(" ") if it]
+                if not chain_matches([chain[1]], [("config_file", "", mf_kv)]):
+                    raise RuntimeError(f"stale model: file layer {chain[1]} vs {mf_kv}")
+            ctx.count("load_config." + "+".join(exp))
+            ctx.case(("load_config", json.dumps(file), tuple(cli)))
+
+
+def check_main_loop(ctx):
+    """the real `_main` loop (with_natspec per contract from the global args) and the real `run_tests` loop (with_devdoc per function
+    from the contract args), observed by replacing forge/build parsing/run_test"""
+    hc, hm = H()["hc"], HM()
+    n = ctx.scale(12, 150)
+    for it in range(n):
+        rng = ctx.rng
+        contracts = []
+        for ki in range(rng.randint(1, 4)):
+            name = f"C{ki}"
+            ann = gen_annotation(rng, allow_bad=False)
+            natspec = {"text": "@custom:halmos " + ann} if ann is not None else rng.choice([None, {}])
+            funs = [(f"check_g{fi}()", gen_annotation(rng, allow_bad=False)) for fi in range(rng.randint(1, 3))]
+            contracts.append((name, natspec, funs))
+        build_out = {"0.8.0": {f"{name}.sol": {name: (mk_contract_json(name, funs), "contract", natspec)} for name, natspec, funs in contracts}}
+        seen = []
+        saved = (hm.subprocess, hm.parse_build_out, hm.run_contract, hm.run_test)
+
+        class _SP:
+            @staticmethod
+            def run(cmd, *a, **k):
+                return type("R", (), {"returncode": 0})()
+
+        def fake_run_contract(cctx):
+            return hm.run_tests(cctx, None, cctx.funsigs)
+
+        hm.subprocess = _SP
+        hm.parse_build_out = lambda args: build_out
+        hm.run_contract = fake_run_contract
+        hm.run_test = lambda fctx: (seen.append((fctx.contract_ctx.name, fctx.info.sig, fctx.args, fctx.contract_ctx.args)), hm.TestResult(fctx.info.sig, 0))[1]
+        cli = rng.sample(["--loop 3", "--width 4", "--depth 8"], rng.randint(0, 2))
+        try:
+            with tempfile.TemporaryDirectory(prefix="c18main") as tmp:
+                r = real_call(hm._main, ["--root", tmp, "--no-status"] + shlex.split(" ".join(cli)))
+        finally:
+            hm.subprocess, hm.parse_build_out, hm.run_contract, hm.run_test = saved
+        replay = {"kind": "main", "contracts": contracts, "cli": cli}
+        if r[0] != "ok":
+            raise RuntimeError(f"could not drive _main offline: {r}")
+        want = [(name, sig) for name, _, funs in sorted(contracts) for sig, _ in funs]
+        if [(k, f) for k, f, _, _ in seen] != want:
+            ctx.violation("annotation_scope:functions-run", f"_main ran {[(k, f) for k, f, _, _ in seen]}, expected {want}", replay)
+            continue
+        by = {name: (natspec, dict(funs)) for name, natspec, funs in contracts}
+        for k, f, cfg, ccfg in seen:
+            natspec, dd = by[k][0], by[k][1][f]
+            nat_opts = oracle_natspec(natspec.get("text", "")) if natspec else ""
+            chain = layer_chain(cfg)
+            exp = (["function_annotation"] if dd else []) + (["contract_annotation"] if nat_opts else []) + ["command_line", "default"]
+            ok = [s for s, _ in chain] == exp
+            if ok and dd:
+                want_ov = real_call(lambda: vars(hc.arg_parser().parse_args(shlex.split(dd))))
+                ok = want_ov[0] == "ok" and chain[0][1] == {k_: v_ for k_, v_ in want_ov[1].items() if v_ is not None}
+            if ok and nat_opts:
+                want_ov = real_call(lambda: vars(hc.arg_parser().parse_args(shlex.split(nat_opts))))
+                ok = want_ov[0] == "ok" and chain[1 if dd else 0][1] == {k_: v_ for k_, v_ in want_ov[1].items() if v_ is not None}
+            if not ok:
+                ctx.violation("annotation_scope:main-loop-wrong-layers", f"{k}.{f}: layers {chain[:3]}, expected sources {exp}; natspec {natspec} devdoc {dd!r}", replay)
+            ctx.count("main-loop." + "+".join(s[:3] for s in exp[:-2]) if exp[:-2] else "main-loop.none")
+            ctx.case(("main", k, f, json.dumps(natspec), dd))
+
+
+def check_char_classes(ctx):
+    rep = ctx.lean("Config").ask(["classes"])[0]
+    m = re.fullmatch(r"ok spaces=([\d,]*) digits=([\d,:]*)", rep)
+    assert m, rep[:200]
+    spaces = {int(x) for x in m.group(1).split(",") if x}
+    digits = {int(a): int(b) for a, b in (x.split(":") for x in m.group(2).split(",") if x)}
+    for cp in range(sys.maxunicode + 1):
+        if 0xD800 <= cp <= 0xDFFF:
+            continue
+        ch = chr(cp)
+        if ch.isspace() != (cp in spaces):
+            raise RuntimeError(f"model isSpace differs from str.isspace at U+{cp:04X}")
+        dv = int(ch) if ch.isdecimal() else None
+        if dv != digits.get(cp):
+            raise RuntimeError(f"model digitVal differs from CPython at U+{cp:04X}: {dv} vs {digits.get(cp)}")
+    ctx.case("char-classes", nontrivial=True)
+    ctx.count("charclasses.codepoints", sys.maxunicode + 1 - 2048)
+
+
+# ------------------------------------------------------------------------------------------------ entry points
+
+
+def run_corpus(ctx, pool):
+    d = VERIF / "corpus" / ID
+    if not d.exists():
+        return
+    for p in sorted(d.glob("*.json")):
+        data = json.loads(p.read_text())
+        ctx.count("corpus")
+        run_one(ctx, data.get("replay", data), pool)
+
+
+def run_one(ctx, data, pool=None):
+    """run one stored case through the same checks (violations are recorded in ctx)"""
+    kind = data.get("kind")
+    if kind == "stack":
+        check_stacks(ctx, [[(s, dict(kw)) for s, kw in data["layers"]]], "replay")
+    elif kind in ("parse", "roundtrip"):
+        if data["parser"] == "timeout" and kind == "parse":
+            check_parser_strings(ctx, "timeout", [data["string"]], "replay")
+        else:
+            check_parser_strings(ctx, data["parser"], [data["string"]], "replay")
+    elif kind == "timeout-roundtrip":
+        PT = H()["hc"].ParseTimeout
+        v = PT.parse(data["string"])
+        u = real_call(PT.unparse, v)
+        back = real_call(PT.parse, u[1]) if u[0] == "ok" else u
+        if back != ("ok", v):
+            ctx.violation("ParseTimeout.unparse:truncates" if timeout_mode() == "truncating" else "ParseTimeout.roundtrip",
+                          f"parse(unparse({v!r})) = {back}", data)
+    elif kind == "toml":
+        hc = H()["hc"]
+        doc = data["doc"]
+        rep = ctx.lean("Config").ask([toml_req(doc)])[0]
+        real = real_call(hc.toml_parser().parse_dict, dict(doc))
+        if (real[0] == "ok") != rep.startswith("ok"):
+            ctx.violation("TomlParser.parse_dict:replay", f"parse_dict({doc}) -> {real}, model {rep}", data)
+    elif kind == "natspec":
+        hb = H()["hb"]
+        t = data["text"] or ""
+        if real_call(hb.parse_natspec, {"text": t}) != ("ok", oracle_natspec(t)):
+            ctx.violation("parse_natspec:replay", f"parse_natspec({t!r})", data)
+    elif kind == "annot":
+        contracts = [(n, ns, t, [tuple(f) for f in funs]) for n, ns, t, funs in data["contracts"]]
+        check_artifacts(ctx, [([(s, dict(kw)) for s, kw in data["base"]], contracts)])
+    elif kind in ("load_config", "main"):
+        # these are regenerated from the seed; run the whole sub-check
+        (check_load_config if kind == "load_config" else check_main_loop)(ctx)
+    else:
+        raise ValueError(f"unknown replay kind {kind}")
+
+
+def correspond(ctx):
+    H()
+    pool = harvest_literals()
+    ctx.note(f"harvested {len(pool)} integer literals (with +-1) from the functions under test")
+    run_corpus(ctx, pool)
+    check_char_classes(ctx)
+    # exhaustive small scopes
+    small = exhaustive_small_stacks()
+    check_stacks(ctx, small, "exhaustive<=3")
+    check_stacks(ctx, exhaustive_solver_stacks(), "exhaustive-solver")
+    ctx.extra["exhaustive_small_stacks"] = len(small)
+    # random stacks
+    n = ctx.scale(2000, 20000)
+    max_layers = 5 if ctx.tier == "quick" else 7
+    batch = 500
+    for i in range(0, n, batch):
+        check_stacks(ctx, [gen_stack(ctx.rng, pool, max_layers) for _ in range(min(batch, n - i))], "random")
+    check_parsers(ctx, pool)
+    check_timeout_grid(ctx, pool)
+    check_toml(ctx, pool)
+    check_natspec(ctx)
+    check_annotations(ctx, pool)
+    check_load_config(ctx)
+    check_main_loop(ctx)
+    ctx.sample({"stack (oldest first)": gen_stack(ctx.rng, pool, 5)})
+    ctx.sample({"array-lengths string": gen_valid(ctx.rng, "lengths", pool), "error-codes string": gen_valid(ctx.rng, "codes", pool),
+                "timeout string": gen_valid(ctx.rng, "timeout", pool)})
+    ctx.extra["exhaustive"] = False
+
+
+def replay(ctx, data) -> bool:
+    H()
+    before = len(ctx.violations)
+    run_one(ctx, data.get("replay", data), harvest_literals())
+    return len(ctx.violations) > before
